@@ -29,6 +29,7 @@ LEVEL_TEXT = (
     "a sorted state whose returned likelihood is that state's. The distribution call-exact enumerates is compared with "
     "the oracle on the same instances. Held on what was observed; not a convergence-rate claim."
 )
+LEVEL_TEXT += ' Session 3: the wide kind also covers large pools (ploidy 24-256) of 2-5 haplotypes.'
 LEVEL_NOTE = "Trusts the independent posterior oracle (vlib/oracles/model.py). Long-run frequency comparison is auxiliary with a loose bound and is never the deciding monitor."
 RULE = (
     "case = one (instance, ordered state, allele position, step type) transition vector or one compound-step observation; "
